@@ -60,10 +60,12 @@ def generate():
     excl = [i["line"] for i in insts if not i["allowed"]]
     if len(allow) < 1000:
         raise gen_x86forms.TranslateError("only %d implemented database forms - vendored list and database no longer match" % len(allow))
-    s, na, ne = gen_x86forms.render(allow, excl)
-    vlib.gen_write("AsmjitVerif/Gen/X86Forms.lean", s)
-    for rel, content in gen_x86forms.render_props(na, ne).items():
+    id2name = {i: n for n, i in name2id.items()}
+    for rel, content in gen_x86forms.render_buckets(sig, id2name, allow, excl).items():
         vlib.gen_write(rel, content)
+    for old in list((vlib.LEAN / "AsmjitVerif" / "Gen").glob("X86FormsChecked*.lean")) + [vlib.LEAN / "AsmjitVerif" / "Gen" / "X86Forms.lean"]:
+        if old.exists():
+            old.unlink()      # layout of the first rounds
     return {"harness": h, "archs": archs, "db": db, "aliases": rows, "aliases_skipped": skipped, "sig": sig, "insts": insts,
             "proved_rows": (len(allow), len(excl))}
 
